@@ -85,8 +85,8 @@ pub struct Violation {
 /// Known findings file: `/verif/known_findings.json`, never written at run time.
 #[derive(Clone, Debug, Default)]
 pub struct KnownFindings {
-  /// property -> list of (key, what)
-  pub open: BTreeMap<String, Vec<(String, String)>>,
+  /// open entries: (property, key, what). Keys are globally unique (prefixed with the property they belong to).
+  pub open: Vec<(String, String, String)>,
 }
 
 impl KnownFindings {
@@ -105,14 +105,16 @@ impl KnownFindings {
         let prop = f.get("property").and_then(|s| s.as_str()).unwrap_or("").to_string();
         let key = f.get("key").and_then(|s| s.as_str()).unwrap_or("").to_string();
         let what = f.get("what").and_then(|s| s.as_str()).unwrap_or("").to_string();
-        kf.open.entry(prop).or_default().push((key, what));
+        kf.open.push((prop, key, what));
       }
     }
     kf
   }
-  pub fn matches(&self, property: &str, key: &str) -> Option<&str> {
+  /// A listed open finding with this key (of whatever property: a check may meet a finding recorded under another
+  /// property, e.g. C19 meets C20's stale-edge aborts; it is reported under the property it is listed for).
+  pub fn matches(&self, key: &str) -> Option<&(String, String, String)> {
     if key.is_empty() { return None; }
-    self.open.get(property)?.iter().find(|(k, _)| k == key).map(|(_, w)| w.as_str())
+    self.open.iter().find(|(_, k, _)| k == key)
   }
 }
 
@@ -165,11 +167,12 @@ impl Report {
   pub fn assume(&mut self, text: &str) { self.assumptions.push(text.to_string()); }
 
   /// Is `key` a listed (open) known finding of this property?
-  pub fn is_known(&self, key: &str) -> bool { self.kf.matches(&self.property, key).is_some() }
+  pub fn is_known(&self, key: &str) -> bool { self.kf.matches(key).is_some() }
+  pub fn known_keys(&self) -> Vec<String> { self.kf.open.iter().map(|(_, k, _)| k.clone()).collect() }
 
   /// Record a violation; it is classified against the known findings by its key.
   pub fn violation(&mut self, v: Violation) {
-    if let Some(_what) = self.kf.matches(&v.property, &v.key) {
+    if self.kf.matches(&v.key).is_some() {
       let e = self.known_hits.entry(v.key.clone()).or_insert((v.what.clone(), 0, v.replay.clone()));
       e.1 += 1;
       return;
@@ -187,14 +190,12 @@ impl Report {
     let wall = self.elapsed();
     // Known findings: one line per listed entry of this property that was met in this run.
     let mut known_json = Vec::new();
-    if let Some(list) = self.kf.open.get(&self.property) {
-      for (key, what) in list {
-        if let Some((_w, n, sample)) = self.known_hits.get(key) {
-          println!("KNOWN-FINDING: property={} {} [{}; met {} times in this run]", self.property, what, key, n);
-          known_json.push(json!({"key": key, "what": what, "times_met": n, "sample": sample}));
-        } else {
-          known_json.push(json!({"key": key, "what": what, "times_met": 0}));
-        }
+    for (prop, key, what) in &self.kf.open {
+      if let Some((_w, n, sample)) = self.known_hits.get(key) {
+        println!("KNOWN-FINDING: property={} {} [{}; met {} times in this run of {}]", prop, what, key, n, self.property);
+        known_json.push(json!({"property": prop, "key": key, "what": what, "times_met": n, "sample": sample}));
+      } else if *prop == self.property {
+        known_json.push(json!({"property": prop, "key": key, "what": what, "times_met": 0}));
       }
     }
     self.coverage.insert("known_findings_met".into(), Value::Array(known_json));
